@@ -30,6 +30,7 @@ pub struct Sess {
     case_no: u64,
     pub interposed: bool,
     pending_trace: Vec<String>,
+    planted: usize,
 }
 
 fn so_path() -> PathBuf {
@@ -60,6 +61,7 @@ impl Sess {
             case_no: 0,
             interposed: so_path().exists(),
             pending_trace: Vec::new(),
+            planted: 0,
         }
     }
 
@@ -369,6 +371,33 @@ impl Sess {
                 let t = std::fs::read_to_string(&log2).unwrap_or_default();
                 let evs: Vec<String> = t.lines().filter(|l| !l.starts_with('#')).map(|l| l.split(' ').take(2).collect::<Vec<_>>().join(" ")).collect();
                 format!("{} other_events={}", r, if evs.is_empty() { "_".to_string() } else { evs.join(";") })
+            }
+            // --- planted garbage / damage behind the store's back (C08)
+            ["plantpath", path, content] => {
+                let comps: Vec<String> = path.split('/').map(|c| String::from_utf8_lossy(&crate::wire::unhx(c)).into_owned()).collect();
+                let mut p = self.dir.join("cas");
+                for c in &comps { p.push(c); }
+                std::fs::create_dir_all(p.parent().unwrap()).expect("plant dir");
+                std::fs::write(&p, crate::wire::unhx(content)).expect("plant file");
+                "ok".to_string()
+            }
+            ["rmblob", h] => {
+                let p = self.dir.join("cas").join(&h[0..2]).join(&h[2..4]).join(&h[4..]);
+                let _ = std::fs::remove_file(p);
+                "ok".to_string()
+            }
+            ["setblob", h, content] => {
+                let p = self.dir.join("cas").join(&h[0..2]).join(&h[2..4]).join(&h[4..]);
+                std::fs::create_dir_all(p.parent().unwrap()).expect("dir");
+                std::fs::write(p, crate::wire::unhx(content)).expect("setblob");
+                "ok".to_string()
+            }
+            ["plantstaging", content] => {
+                std::fs::create_dir_all(self.dir.join("staging")).expect("staging dir");
+                let name = format!("planted{}", self.staging.len() + self.planted);
+                self.planted += 1;
+                std::fs::write(self.dir.join("staging").join(name), crate::wire::unhx(content)).expect("plantstaging");
+                "ok".to_string()
             }
             ["dump"] => self.dump(),
             ["conc", _policy, progs @ ..] => {
